@@ -13,6 +13,9 @@ CHECKS = {
 }
 CHECKS.update({
  # NEW-ENTRIES-HERE
+ "C05": (True, "exploration", "exhaustive schema-type x Go-kind x position matrix with canary/guard memory around every destination, isolated workers",
+         "The complete matrix of 24 schema nodes x 55 Go types x 4 positions (8 thorough) is enumerated: an unsound pair (per a soundness table written from the documented mapping) must be refused when the decoder is built; for every pair that builds, every in-range and out-of-range datum is decoded into a destination surrounded by canary fields, guard array elements and canary-patterned spare slice capacity, which must stay byte-identical, and the field must hold the reference value. The matrix is finite, so it is covered completely; worker isolation turns memory faults into attributed violations.",
+         "Corruption beyond the guards that does not crash is unobserved; sound pairs the library refuses are not judged.", "DESIGN.md §4 C05"),
  "C03": (True, "exploration", "bounded-exhaustive enumeration of (schema, datum, every legal serialisation, file-block partition, codec, compatible target) on reference-written files",
          "Files are produced by an independent reference writer whose choice-driven encoder enumerates EVERY legal serialisation of a datum (all block splits of arrays/maps, with and without byte sizes, null in either union position); every schema of depth <=2 (3 thorough), every datum of a bounded alphabet and every compatible Go target (pointer indirection, integer/float width, wrappers) are crossed; multi-record files cover every partition into file blocks and the three codecs. Values must equal the reference mapping; an integer that does not fit must yield an error and no callback.",
          "Depth and collection-size bounds; quick caps encodings per datum at 64 (reported); floats only where exactly representable.", "DESIGN.md §4 C03"),
